@@ -129,6 +129,13 @@ fn ready(s: State) -> bool {
     matches!(s, State::ConfigReceived | State::ShowingPages | State::PageLoaded | State::PageShowInProgress | State::PageShown | State::PageLoadInProgress)
 }
 
+/// States in which a sign accepts a pixel transfer: what "no configuration needed" can soundly mean. The
+/// controller's own list (`ready`) is a subset; one that also counts 'pixels failed' is as good (the statement
+/// only promises that sending pages afterwards succeeds, which the search checks from the resulting state).
+fn accepts_pixels(s: State) -> bool {
+    ready(s) || s == State::PixelsFailed
+}
+
 fn pages_eq(sign: &VirtualSign<'_>, want: &[Page<'static>]) -> bool {
     sign.pages().len() == want.len() && sign.pages().iter().zip(want).all(|(a, b)| a.width() == b.width() && a.height() == b.height() && a.as_bytes() == b.as_bytes())
 }
@@ -267,13 +274,13 @@ impl System for C08Sys {
                     }
                     CtlOp::ConfigureIfNeeded => {
                         outcome = "configure-if-needed";
-                        let judged = !ready(prior.state()) || prior.sign_type() == Some(t);
+                        let judged = !accepts_pixels(prior.state()) || prior.sign_type() == Some(t);
                         if judged {
                             match &res {
                                 Err(e) => viol.push(("configure-if-needed-succeeds".into(), format!("from-{}", prior_class), format!("{}: failed with {}", ctx, e))),
                                 Ok(_) => {
                                     let fresh = sg.state() == State::ConfigReceived && sg.sign_type() == Some(t) && sg.pages().is_empty();
-                                    let kept = ready(prior.state()) && prior.sign_type() == Some(t) && ready(sg.state()) && sg.sign_type() == Some(t) && pages_eq(&sg, &prior.pages().iter().map(|p| Page::from_bytes(p.width(), p.height(), p.as_bytes().to_vec()).unwrap()).collect::<Vec<_>>());
+                                    let kept = accepts_pixels(prior.state()) && prior.sign_type() == Some(t) && accepts_pixels(sg.state()) && sg.sign_type() == Some(t) && pages_eq(&sg, &prior.pages().iter().map(|p| Page::from_bytes(p.width(), p.height(), p.as_bytes().to_vec()).unwrap()).collect::<Vec<_>>());
                                     if !(fresh || kept) {
                                         viol.push(("configure-if-needed-result".into(), format!("from-{}", prior_class), format!("{}: afterwards state {:?}, type {:?}, {} page(s): neither unchanged-and-ready nor freshly configured", ctx, sg.state(), sg.sign_type(), sg.pages().len())));
                                     }
@@ -401,7 +408,7 @@ pub fn run(ctx: &Ctx) -> Report {
                 (configure, configure_if_needed, send_pages of 4 page lists, show, load_next, shut_down) is executed and judged by a promise model that says only what the statement says. Chaining of operations comes from the search. distinct_nontrivial = distinct stored states other than the initial one"
         .into();
     rep.trusted_base = vec!["the promise model in c08.rs (flags set_up / loaded)".into(), "bfs.rs".into(), "refsign.rs only for size bounds".into()];
-    rep.assumptions.push("earlier traffic's configuration blocks are either a supported type's exact block or carry an unsupported (family,id): then sign_type()==Some(T) implies the sign has T's size (C19 checks the lemma); configure_if_needed is judged only from priors that are not ready-to-receive or record T".into());
+    rep.assumptions.push("earlier traffic's configuration blocks are either a supported type's exact block or carry an unsupported (family,id): then sign_type()==Some(T) implies the sign has T's size (C19 checks the lemma); configure_if_needed is judged only from priors that do not accept a pixel transfer or record T".into());
     let budget = ctx.clone();
     let deadline = move || budget.over_budget();
     let mut runs = vec![];
